@@ -497,6 +497,11 @@ def stepFixed (mx : Nat) (a : Arr) (L : Log) (op : Op) : Res :=
     { r with log := { r.log with dtor := r.log.dtor + 1 } }          -- ~valueCopy
   | none => step mx a L op
 
+/-- operation sequences with the repaired algorithm (the code as it is after the `fix:` commit) -/
+def runFixed (mx : Nat) (a : Arr) (L : Log) : List Op → Arr × Log
+  | [] => (a, L)
+  | op :: ops => let r := stepFixed mx a L op; runFixed mx r.arr r.log ops
+
 /-! ## the specification: what `std::vector` does -/
 
 def Ref.value (vs : List Elt) : Ref → Elt
@@ -609,6 +614,13 @@ def wspec (vss : List (List Elt)) : WOp → List (List Elt)
   | .moveCtor i j => if i = j then vss else (vss.set i (vss.getD j [])).set j []
   | .viewCopy i off j off2 len =>
     vss.set i (splice (vss.getD i []) off (off + len) (((vss.getD j []).drop off2).take len))
+
+/-- world step with the repaired single-array algorithm -/
+def wstepFixed (mx : Nat) (w : World) : WOp → World
+  | .on k op =>
+    let r := stepFixed mx (w.get k) w.log op
+    { arrs := w.arrs.set k r.arr, log := r.log, thrown := r.thrown }
+  | op => wstep mx w op
 
 def wrun (mx : Nat) (w : World) : List WOp → World
   | [] => w
